@@ -126,6 +126,9 @@ func (p Profile) String() string {
 	if p.CellW == 0 || p.CellH == 0 {
 		s += "/no-pixel-sizes"
 	}
+	if p.AppID == "" {
+		s += "/empty-app-id"
+	}
 	return fmt.Sprintf("%s/v%d/cur%d,%d/cs%d", s, p.Version, p.InitRow, p.InitCol, p.UserCursorStyle)
 }
 
